@@ -148,8 +148,9 @@ class MeshQuad1(Mesh2D):
 
         """
         if style == 'x':
-            tnew = np.arange(np.max(self.t) + 1,
-                             np.max(self.t) + 1 + self.t.shape[1],
+            # the midpoints are appended after the existing points
+            tnew = np.arange(self.doflocs.shape[1],
+                             self.doflocs.shape[1] + self.t.shape[1],
                              dtype=np.int32)
             t = np.hstack((
                 np.vstack((self.t[[0, 1]], tnew)),
